@@ -117,6 +117,8 @@ func zzFlatFile(info *metainfo.Info, x int64) (int, int64) {
 	return -1, 0
 }
 
+//vrt:use internal/metainfo
+
 // ZZNewPiecesTile: for every info dictionary NewInfo accepts (<=3 files,
 // <=3 pieces, all lengths symbolic), NewPieces terminates without panic and
 // the pieces' sections enumerate the concatenation of all files exactly once.
